@@ -171,6 +171,17 @@ def history_case(draw, table=None):
     return dict(table=name, inc=draw(st.sampled_from([0, 0, 1, 3])), ops=ops)
 
 
+@st.composite
+def large_history_case(draw, table=None):
+    """As history_case, but the second step grows the table past 2^16 rows in one append_columns call (or, rarely,
+    row by row), and the remaining steps operate on that long table."""
+    name = table or draw(st.sampled_from(TABLES))
+    init = draw(st.lists(st_row(name), min_size=2, max_size=5))
+    big = ["burst", draw(st.sampled_from([65534, 66000, 70001])), draw(st_row(name)), draw(st.integers(0, 7)) > 0]
+    ops = [["append_columns", init, [], 0], big] + draw(st.lists(st_op(name), min_size=2, max_size=7))
+    return dict(table=name, inc=draw(st.sampled_from([0, 0, 1, 4096])), ops=ops)
+
+
 # ------------------------------------------------------------------ model
 def f64b(x):
     return struct.pack("<d", x)
@@ -684,6 +695,7 @@ def run_history(case, ctx):
             model.rows = model.rows + rows
             ctx.label("burst>=300", cnt >= 300)
             ctx.label("burst>=1100", cnt >= 1100)
+            ctx.label("burst>=65534", cnt >= 65534)
             if truncated:
                 flags["truncate_then_grow"] = True
         elif k == "equals":
